@@ -1,0 +1,12 @@
+//go:build verif
+
+package logging
+
+// Accessors for the model-based verification harness (build tag "verif" only).
+
+// VerifReset detaches the logger from the configuration it was initialised with,
+// so that Init can bind it to the configuration of the next replayed behaviour.
+func VerifReset() {
+	subs.UnsubscribeAll()
+	initialized = false
+}
